@@ -52,6 +52,8 @@ def split_params(p):
 
 
 class Drawer:
+    sse = True
+
     def __init__(self, selfname):
         self.selfname, self.code, self.n = selfname, [], 0
 
@@ -89,6 +91,8 @@ class Drawer:
             arms = " ".join(f"{i} => EulerRot::{n}," for i, n in enumerate(EULER)) + " ".join(f"{i + 12} => EulerRot::{n}Ex," for i, n in enumerate(EULER))
             self.code.append(f"let {v}k = s.u8() % 24; let {v} = match {v}k {{ {arms} _ => EulerRot::XYZ }};")
             return v
+        if ty == "BVec4A" and self.selfname == "Vec4" and not Drawer.sse:
+            ty = "BVec4"   # scalar-math: Vec4's mask type is BVec4 (imported under the name BVec4A)
         m = re.fullmatch(r"BVec(\d)A?", ty)
         if m:
             n = int(m.group(1))
@@ -121,6 +125,7 @@ def methods_of(name, src):
 
 def harnesses(tier, cfg):
     sse = KCFGS[cfg]["sse"]
+    Drawer.sse = sse
     hs, skipped = [], []
     types = [(t.name, vec_file(t, sse)) for t in FLOAT_VECS] + [(q.name, q.file(sse)) for q in QUATS.values()] + [(m.name, m.file(sse)) for m in MATS.values()]
     for T, f in types:
